@@ -8,12 +8,12 @@ EXTENDS Values, Json, IOUtils, TLC
 Rows == ndJsonDeserialize(IOEnv.OBS)
 N == Len(Rows)
 Val(j) == Rows[j].v
-VARIABLE i
-Init == i \in 1..N
-Next == UNCHANGED i
+VARIABLES i, ph
+Init == i \in 1..N /\ ph = 0
+Next == ph = 0 /\ ph' = 1 /\ i' = i
 Expected(x, y) == IF TotalLess(x, y) THEN "lt" ELSE IF TotalLess(y, x) THEN "gt" ELSE "eq"
 Bad(k) == {j \in 1..N : Rows[k].eq[j] # ValueEq(Val(k), Val(j)) \/ Rows[k].cmp[j] # Expected(Val(k), Val(j))}
-Judged == LET b == Bad(i) IN
+Judged == ph = 0 \/ LET b == Bad(i) IN
   IF b = {} THEN PrintT(<<"VERDICT", i, "C08.ok", N>>)
   ELSE LET j == CHOOSE j \in b : TRUE IN
        PrintT(<<"VERDICT", i, "C08.bad", ToJson([a |-> Val(i), b |-> Val(j), eq |-> Rows[i].eq[j], cmp |-> Rows[i].cmp[j],
